@@ -2,6 +2,8 @@ CONSTANTS
   Cap = 1000
   N = @N@
   T = @T@
+  F = @F@
+  ND = @ND@
 INIT EInit
 NEXT ENext
 INVARIANTS Conform
